@@ -2,7 +2,8 @@
     Property theorems (statements only; proofs are in CfgState/DiffProofs.v). *)
 From stdpp Require Import gmap strings.
 From Coq Require Import NArith.
-From SV Require Import CfgState.Model CfgState.Spec CfgState.Gen CfgState.GenSteps CfgState.DiffProofs CfgState.DiffApply.
+From SV Require Import CfgState.Model CfgState.Spec CfgState.Gen CfgState.GenSteps CfgState.DiffProofs CfgState.DiffApply
+  CfgState.ReplayBuckets CfgState.DiffChunks CfgState.DiffClusters CfgState.DiffAbs CfgState.DiffCerts CfgState.DiffCompose.
 Open Scope N_scope.
 
 (** [DiffMap] (the merge-join used for clusters and backends) is sound and
@@ -49,16 +50,72 @@ Proof. exact DiffProofs.diff_same_empty. Qed.
 
 (** Full statement of C06 on the model:
       apply_diff : InvR A -> InvR B ->
-        replay (diff A B) A = (B', 0) /\ norm_set B' = norm_set B.
-    PROVED section by section so far: the http and https frontend sections
-    ([apply_diff_fronts]: removals then additions, keyed by the route string,
-    for any two maps whose keys are the keys of their values), and end to end
-    for configurations that differ in their http/https frontends only
-    ([apply_diff_fronts_only], exact equality, every request accepted).
-    NOT PROVED (covered by the correspondence runs only): the listener
-    sections (removed / added / changed / late activation), clusters and
-    backends (through the merge-join, whose correctness IS proved above),
-    tcp/udp frontends, certificates. *)
+        exists Z, replay (diff A B) A = (Z, 0) /\ norm_set Z = norm_set B.
+    PROVED, section by section (each for ANY state holding the section's map,
+    so the sections compose in the order of [diff]):
+      - listeners, all four kinds: removed (Deactivate? + Remove), added
+        (Add + Activate?), present on both sides (Remove + Add inactive +
+        Activate? + Deactivate?), late re-activation   [apply_diff_listeners]
+      - clusters: the merge-join composed with add_cluster / remove_cluster
+        (Removed -> accepted removal, Added/Changed -> accepted upsert that
+        lands on the target)                             [apply_diff_clusters]
+      - http and https frontends                         [apply_diff_fronts]
+      - certificates (by value; modulo empty buckets)    [apply_diff_certs]
+    and COMPOSED over the whole section order [apply_diff_sections]: for A, B
+    satisfying the reachable-state invariant whose backends and tcp/udp
+    frontends agree, every request of diff(A,B) is accepted by an instance
+    holding A, which then holds B modulo empty buckets.
+    NOT PROVED (correspondence runs only): the backends section (merge-join on
+    (cluster,id,address) composed with the sorted upsert) and the tcp/udp
+    frontend sections (set semantics of the buckets).
+    The composition needs NO cross-section precondition: ConfigState checks no
+    reference between maps (a frontend may name a missing cluster or listener),
+    so on ConfigState the order of the sections is irrelevant for acceptance;
+    it matters only for the live proxies of a worker (C08). *)
+Theorem apply_diff_listeners :
+  forall fingerprint inames hc_valid steps k my other s,
+    get_l k s = my ->
+    let r := replay fingerprint inames hc_valid steps in
+    r (diff_listeners_removed k my other) s = (set_l k s (after_removed my other), 0%nat)
+    /\ r (diff_listeners_added k my other) (set_l k s (after_removed my other)) = (set_l k s (after_added my other), 0%nat)
+    /\ r (diff_listeners_common k my other) (set_l k s (after_added my other)) = (set_l k s other, 0%nat)
+    /\ r (diff_late_activate k my other) (set_l k s other) = (set_l k s other, 0%nat).
+Proof.
+  intros fp nm hc st k my other s Hmy. cbv zeta.
+  assert (Hg : forall m, get_l k (set_l k s m) = m) by (intros; destruct k; reflexivity).
+  assert (Hs : forall m m', set_l k (set_l k s m) m' = set_l k s m') by (intros; destruct k; reflexivity).
+  split; [apply piece_removed; exact Hmy|].
+  split; [rewrite piece_added by apply Hg; rewrite Hs; reflexivity|].
+  split; [rewrite piece_common by apply Hg; rewrite Hs; reflexivity|].
+  apply piece_late. apply Hg.
+Qed.
+
+Theorem apply_diff_clusters :
+  forall fingerprint inames hc_valid steps my other s,
+    clusters s = my ->
+    (forall i c v, other !! i = Some c -> c_hc c = Some v -> hc_valid v = true) ->
+    replay fingerprint inames hc_valid steps (diff_clusters my other) s = (set_clusters s other, 0%nat).
+Proof. intros. apply piece_clusters; assumption. Qed.
+
+Theorem apply_diff_certs :
+  forall fingerprint inames hc_valid steps my other s,
+    certs s = my ->
+    (forall a b fp k, other !! a = Some b -> b !! fp = Some k ->
+       fingerprint (k_pem k) = Some fp /\ resolve inames k = Some (k_names k)) ->
+    exists c', replay fingerprint inames hc_valid steps (diff_certs my other) s = (set_certs s c', 0%nat)
+               /\ filter (fun ab : N * gmap N cert => snd ab <> ∅) c' = filter (fun ab : N * gmap N cert => snd ab <> ∅) other.
+Proof.
+  intros fp nm hc st my other s Hmy Hok.
+  destruct (piece_certs fp nm hc st my other s Hmy Hok) as (c' & Hr & Hc). exists c'. split; [exact Hr|apply cabs_norm; exact Hc].
+Qed.
+
+Theorem apply_diff_sections :
+  forall fingerprint inames hc_valid steps A B,
+    InvR fingerprint inames hc_valid A -> InvR fingerprint inames hc_valid B ->
+    backends B = backends A -> tcp_f B = tcp_f A -> udp_f B = udp_f A ->
+    exists Z, replay fingerprint inames hc_valid steps (diff A B) A = (Z, 0%nat) /\ norm Z = norm B.
+Proof. intros. apply DiffCompose.apply_diff_sections; assumption. Qed.
+
 Theorem apply_diff_fronts :
   forall fingerprint inames hc_valid steps tls my other s,
     get_f tls s = my ->
